@@ -270,6 +270,10 @@ func main() {
 		scenario{Name: "unhealthy-t3", Kind: "unhealthy", Checks: []bool{T, F, F, T, F, F, F, T}, Threshold: 3},
 		scenario{Name: "unhealthy-t0-means-1", Kind: "unhealthy", Checks: []bool{T, T, T, F, T}, Threshold: 0},
 		scenario{Name: "healthy-forever", Kind: "unhealthy", Checks: []bool{T, F, T, F, T, F}, Threshold: 2},
+		// a backend that comes up late and then flaps: failures before the first passing check do not count
+		scenario{Name: "late-then-single-flap-t2", Kind: "unhealthy", Checks: []bool{F, T, F, T, T}, Threshold: 2},
+		scenario{Name: "late-2-then-two-flaps-t3", Kind: "unhealthy", Checks: []bool{F, F, T, F, F, T}, Threshold: 3},
+		scenario{Name: "late-then-exit-t2", Kind: "unhealthy", Checks: []bool{F, F, F, T, F, F, T}, Threshold: 2},
 	)
 	for _, sig := range []string{"INT", "TERM"} {
 		scs = append(scs,
